@@ -106,6 +106,9 @@ def _parse(out, names):
             if re.search(r"unwinding assertion|not currently supported|unsupported", fc) and not \
                     re.search(r"assertion failed: ", fc):
                 d["status"] = "undecided"
+        if d["status"] == "fail" and "VERIF-UNMODELLED" in " ".join(d["failed_checks"]):
+            # a stub of the harness met a call it does not model (e.g. another format string): no verdict
+            d["status"] = "undecided"
         if "CBMC failed" in sec or "out of memory" in sec.lower() or "memory exhausted" in sec.lower():
             d["status"] = "undecided"
         res[short] = d
